@@ -6,7 +6,7 @@ import itertools
 
 from .. import automata as A
 from .. import blocks, e1, impl, linelang, refmodel
-from ..chartgen import UNICODE_TRAPS, mk
+from ..chartgen import FORMAT_TRAPS, UNICODE_TRAPS, mk
 from ..linelang import BL
 
 ID = "C09"
@@ -231,7 +231,7 @@ def _orders(ctx):
     check_e2e(ctx, longbody, "1500 lines", sync=("0 = TS 4", "0 = B 120000") + tuple("%d = B %d" % (100 * k, 60000 + k) for k in range(1, 25)))
     check_e2e(ctx, longbody[:700] + ["garbage"] + longbody[700:], "1501 lines, one of them a stray line")
     # characters that text-level "clean-ups" like to strip: BOM / zero-width / no-break / ideographic blanks
-    for sp in ("\ufeff", "\u200b", "\u00a0", "\u3000", "\U0001f3b8") + UNICODE_TRAPS:
+    for sp in ("\ufeff", "\u200b", "\u00a0", "\u3000", "\U0001f3b8") + UNICODE_TRAPS + FORMAT_TRAPS:
         for tmpl in ("lyric a%sb", "lyric %s", "lyric%s x", "lyric %sx%s y", "section a%sb", "sec%stion x", "section%s", "a%sb", "%s", "x%s y"):
             t = tmpl.replace("%s", sp)
             line = '7 = E "%s"' % t
